@@ -9,10 +9,11 @@ import (
 	"github.com/rs/zerolog/log"
 )
 
-var k = koanf.New(".")
-
 // updatePackageInfoFromArgs overrides the fields in packageInfo using command-line arguments
 func updatePackageInfoFromArgs(packageInfo *packaging.PackageInfo, configArgs map[string]string) error {
+	// a new instance for every call: in watch mode this runs once per regeneration, and the settings of a
+	// section that has since been removed from _package.yml must not carry over
+	k := koanf.New(".")
 	if err := k.Load(structs.Provider(packageInfo, "yaml"), nil); err != nil {
 		log.Panic().Msgf("error loading package info: %v", err)
 	}
